@@ -1,3 +1,4 @@
+use proc_macro2::{Delimiter, Group, TokenStream, TokenTree};
 use quote::{quote, ToTokens};
 use syn::{spanned::Spanned, Expr, Lit, Meta, Type};
 
@@ -8,11 +9,62 @@ const INT_TYPES: [&str; 12] =
 
 const FLOAT_TYPES: [&str; 2] = ["f32", "f64"];
 
+/// A value forwarded through a `macro_rules!` fragment (e.g. `$e:expr`) is wrapped in an invisible group, which is not kept when the generated code is parsed again. Use parentheses instead so that `$e * 2` keeps its meaning.
+fn parenthesize_invisible_groups(tokens: TokenStream) -> TokenStream {
+    tokens
+        .into_iter()
+        .map(|token| match token {
+            TokenTree::Group(group) => {
+                let stream = parenthesize_invisible_groups(group.stream());
+
+                let delimiter = if group.delimiter() == Delimiter::None {
+                    let mut iter = stream.clone().into_iter();
+
+                    if let (Some(token), None) = (iter.next(), iter.next()) {
+                        // a single token needs no grouping
+                        return token;
+                    }
+
+                    Delimiter::Parenthesis
+                } else {
+                    group.delimiter()
+                };
+
+                let mut new_group = Group::new(delimiter, stream);
+
+                new_group.set_span(group.span());
+
+                TokenTree::Group(new_group)
+            },
+            token => token,
+        })
+        .collect()
+}
+
+#[inline]
+fn strip_invisible_groups(mut tokens: TokenStream) -> TokenStream {
+    // the whole expression may be a forwarded fragment
+    loop {
+        let mut iter = tokens.clone().into_iter();
+
+        match (iter.next(), iter.next()) {
+            (Some(TokenTree::Group(group)), None) if group.delimiter() == Delimiter::None => {
+                tokens = group.stream();
+            },
+            _ => break,
+        }
+    }
+
+    parenthesize_invisible_groups(tokens)
+}
+
 #[inline]
 pub(crate) fn meta_2_expr(meta: &Meta) -> syn::Result<Expr> {
     match &meta {
-        Meta::NameValue(name_value) => Ok(name_value.value.clone()),
-        Meta::List(list) => list.parse_args::<Expr>(),
+        Meta::NameValue(name_value) => {
+            syn::parse2(strip_invisible_groups(name_value.value.to_token_stream()))
+        },
+        Meta::List(list) => syn::parse2(strip_invisible_groups(list.tokens.clone())),
         Meta::Path(path) => Err(syn::Error::new(
             path.span(),
             format!("expected `{path} = Expr` or `{path}(Expr)`", path = path_to_string(path)),
